@@ -85,6 +85,13 @@ func innermostEngineFrame(stack string) string {
 	return "?"
 }
 
+// PanicCount is the number of recorded goroutine-top panics not yet taken.
+func PanicCount() int {
+	pmu.Lock()
+	defer pmu.Unlock()
+	return len(panics)
+}
+
 // TakePanics returns and clears the goroutine-top panics recorded so far.
 func TakePanics() []PanicRec {
 	pmu.Lock()
